@@ -32,6 +32,12 @@ pub fn build(property: &str, tier: &str) -> Option<PropRun> {
         "C12" => Some(c12(quick)),
         "C13" => Some(c13(quick)),
         "C20" => Some(c20(quick)),
+        "C07" => Some(crate::props_ew::c07(quick)),
+        "C08" => Some(crate::props_ew::c08(quick)),
+        "C09" => Some(crate::props_ew::c09(quick)),
+        "C10" => Some(crate::props_ew::c10(quick)),
+        "C17" => Some(crate::props_ew::c17(quick)),
+        "C18" => Some(crate::props_ew::c18(quick)),
         _ => None,
     }
 }
